@@ -394,6 +394,10 @@ def gen_adversarial(r, which):
     return p
 
 
+# callers of the 3-argument checkMotion(s1, s2, lastValid) (grep over src/ompl/geometric/planners): they get many more runs
+# of the short-motion class.  Of these, KPIECE1 and LBKPIECE1 hand it end states nobody validated before; BKPIECE1 and
+# STRIDE sample the end state with a *valid* state sampler, RLRT / BiRLRT use it only in keep-last mode, PDST on long motions.
+THREE_ARG = {"KPIECE1", "BKPIECE1", "LBKPIECE1", "PDST", "RLRT", "BiRLRT", "STRIDE"}
 # evaluation budgets of the short-motion class (tiny range => many nodes; these planners get slow with many nodes)
 SHORT_BUDGET = {"LBTRRT": 4000, "LazyPRM": 8000, "LazyPRMstar": 8000, "LazyLBTRRT": 8000}
 
@@ -709,19 +713,23 @@ def check_solution(p, R, sol, top, fails, obs):
     lvs = R["lvs"]
     # (4) gap form, all planners
     g1, w1 = longest_invalid_sampled(p, sol, dists)
+    nlast = len(st) - 2
     if g1 > 2.0 * lvs * (1 + 1e-9):
-        fails.append((pre + "gap", "invalid stretch of length >= %r (%.2f x resolution length %r) starting on edge %s (dense re-sampling)" % (g1, g1 / lvs, lvs, w1)))
+        fails.append((pre + "gap", "invalid stretch of length >= %r (%.2f x resolution length %r) starting on edge %s (dense re-sampling)" % (g1, g1 / lvs, lvs, w1),
+                      {"on_last_edge": w1 is not None and w1 >= nlast}))
     elif p.linear_position() and p.boxes:
         g2, w2 = longest_invalid_exact(p, st, dists)
         if g2 > 2.0 * lvs * (1 + 1e-9):
-            fails.append((pre + "gap", "invalid stretch of length %r (%.2f x resolution length %r) on edge %s (exact segment/box intersection)" % (g2, g2 / lvs, lvs, w2)))
+            fails.append((pre + "gap", "invalid stretch of length %r (%.2f x resolution length %r) on edge %s (exact segment/box intersection)" % (g2, g2 / lvs, lvs, w2),
+                          {"on_last_edge": w2 is not None and w2 >= nlast}))
         obs["max-gap-over-lvs"] = max(obs.get("max-gap-over-lvs", 0.0), g2 / lvs)
     obs["max-sampled-gap-over-lvs"] = max(obs.get("max-sampled-gap-over-lvs", 0.0), g1 / lvs)
     # (5) strict form: vertices and every j/n point valid
-    bad = None
+    bad, badedge = None, None
     for j, x in enumerate(st):
         if not p.valid(x):
             bad = "path state %d = %r is invalid" % (j, x)
+            badedge = j - 1 if j > 0 else 0
             break
     if bad is None:
         for j in range(len(st) - 1):
@@ -729,14 +737,16 @@ def check_solution(p, R, sol, top, fails, obs):
             for q, x in enumerate(inner):
                 if not p.valid(x):
                     bad = "subdivision point %d/%d of edge %d (%r -> %r) = %r is invalid: checkMotion fails on this pair" % (q + 1, n, j, st[j], st[j + 1], x)
+                    badedge = j
                     break
             if bad:
                 break
     if bad is not None:
+        extra = {"on_last_edge": badedge is not None and badedge >= len(st) - 2}
         if is_strict(p):
-            fails.append((pre + "strict", bad))
+            fails.append((pre + "strict", bad, extra))
         elif bad.startswith("path state") and strict_key(p) in VERTEX_VALID:
-            fails.append((pre + "vertex", bad))
+            fails.append((pre + "vertex", bad, extra))
         else:
             obs["nonstrict-planner-strict-miss"] = obs.get("nonstrict-planner-strict-miss", 0) + 1
 
@@ -1123,9 +1133,10 @@ def plan_quick(ck, names):
         if name in MULTILEVEL:
             continue
         for wall in ("thin", "thick"):
-            sm = gen_short_motion(r, wall)
-            jobs.append(sm.clone(planner=name, seed=r.below(1000), budget=SHORT_BUDGET.get(name, 30000),
-                                 pollcap=pollcap_for(name, SHORT_BUDGET.get(name, 30000))))
+            for rep in range(8 if name in THREE_ARG else 1):
+                sm = gen_short_motion(r, wall)
+                jobs.append(sm.clone(planner=name, seed=r.below(100000), budget=SHORT_BUDGET.get(name, 30000),
+                                     pollcap=pollcap_for(name, SHORT_BUDGET.get(name, 30000))))
         if name in DIRECTION_AWARE:
             for k in range(60 if name == "BiTRRT" else 30):
                 dd = gen_dubins_directed(r)
@@ -1155,7 +1166,7 @@ def plan_thorough(ck, names):
         if name in MULTILEVEL:
             continue
         for wall in ("thin", "thick"):
-            for rep in range(6):
+            for rep in range(30 if name in THREE_ARG else 6):
                 sm = gen_short_motion(r, wall)
                 jobs.append(sm.clone(planner=name, seed=r.below(100000), budget=SHORT_BUDGET.get(name, 30000),
                                      pollcap=pollcap_for(name, SHORT_BUDGET.get(name, 30000))))
